@@ -116,7 +116,7 @@ def part_b(ctx):
         outn = end.get("out_total", 0)
         kind = stdinputs.KIND[m["dec"]]
         scheds = []
-        for _ in range(per):
+        for _ in range(per if not m["origin"].startswith("generated") else max(2, per // 2)):
             r = rng.random()
             if r < 0.35:
                 k = rng.choice([0, 1, 2, max(0, n - 1), max(0, n - 2)] + [rng.randrange(0, n + 1) for _ in range(4)])
@@ -268,7 +268,7 @@ def token_schedules(rng, dec, n, ntok, thorough):
     """Schedules aimed at the token path (piece-list semantics: spec/IOSchedule.tla; TokDstLists there): 1-byte source
     pieces, token buffers of 1, 2, 3 tokens (not below the decoder's documented minimum), both at once."""
     capmin = tokgen.TOKEN_CAP_MIN.get(dec, 1)
-    lim = 6000 if thorough else 1500
+    lim = 5000 if thorough else 1500        # (the scheduled jobs' call budget is 6000)
     cands = []
     for piece in (1, 1, 2, 3):
         if n // piece <= lim:
@@ -279,7 +279,7 @@ def token_schedules(rng, dec, n, ntok, thorough):
             if n // 2 + ntok // cap <= lim:
                 cands.append({"src": str(rng.choice((1, 2, 5))), "dst": str(cap), "srcmode": rng.choice(("view", "fresh")), "close": rng.choice(("end", "late"))})
     rng.shuffle(cands)
-    return cands[: (6 if thorough else 3)]
+    return cands[: (6 if thorough else 2)]
 
 
 def run(ctx):
